@@ -8,6 +8,7 @@ C14.4  the cached value depends on (name, content) only: no host query is reacha
 C14.5  JS-side caches keyed by file are invalidated by updateFileContent
 """
 import re
+import collections
 from entry import reachable, wasm_exports
 from facts import WASM
 from mirflow import FnFlow, Origins, must_pass, offending_return_path, op_local, op_place
@@ -270,54 +271,78 @@ def run(cx, rep):
     # ---------------------------------------------------------------- C14.3
     rep.rule("C14.3", "process-lifetime state is exactly the reviewed inventory")
     tab = cx.table("c14_state_inventory.json")
-    user_statics = set()
-    for s in F.statics:
-        # macro-internal statics (lazy_static LAZY, thread_local __RUST_STD_INTERNAL_VAL) belong to their outer item
-        sid = s["id"]
+    # process-lifetime roots: user-written statics, lazy_static!s and thread_local!s, identified by the SHAPE of what
+    # they hold (the declared type with local structs expanded to their field types), not by their names
+    roots = {}   # (crate, base name) -> type
+    for s_ in F.statics:
+        sid = s_["id"]
+        macs = s_.get("macros") or []
+        if "thread_local" in macs:
+            continue          # std-internal storage of a thread_local!: the LocalKey const below stands for it
         m = re.match(r"^(?:<)?(\w+(?:::\w+)*?)(?:::\{constant#\d+\}.*|::__.*| as .*)?$", sid)
-        base = m.group(1) if m else sid
-        base = base.split("::{")[0]
-        user_statics.add((s["crate"], base.split("::__")[0]))
-    # thread_local!s show up as Const items named after the key; collect LocalKey consts
+        base = (m.group(1) if m else sid).split("::{")[0].split("::__")[0]
+        ty = s_["ty"]
+        if "lazy_static" in macs and not ty.startswith("lazy_static::"):
+            continue          # the unit struct that derefs to the LAZY static listed separately
+        roots[(s_["crate"], base)] = ty
     for cr, d in F.crates.items():
         for raw in d["fns"]:
-            if raw["kind"].startswith("Const") and "thread_local" in raw.get("macros", []):
-                user_statics.add((cr, raw["id"].split("::{")[0]))
-    expected = {(e["crate"], e["name"]) for e in tab["rust_statics"]}
-    for cr, name in sorted(user_statics):
-        rep.ob("C14.3", "static/%s::%s" % (cr, name), (cr, name) in expected,
-               "process-lifetime state %s::%s is not in the reviewed inventory (tables/c14_state_inventory.json): state that survives a rebuild must be shown to depend on current file contents only" % (cr, name))
-    for cr, name in sorted(expected - user_statics):
-        rep.notes.append("inventory entry %s::%s no longer exists" % (cr, name))
-    # fields of the ADTs held in that state
-    for e in tab["state_adts"]:
-        adt = F.adts.get(e["adt"])
-        if adt is None:
-            rep.anchor_missing("C14.3", "ADT " + e["adt"])
-            continue
-        fields = sorted(fl["name"] for v in adt["variants"] for fl in v["fields"])
-        rep.ob("C14.3", "fields/%s" % e["adt"], fields == sorted(e["fields"]),
-               "state ADT %s now has fields %s, reviewed inventory has %s: a new field is new cross-rebuild state" % (e["adt"], fields, sorted(e["fields"])),
-               "%s:%s" % (adt["file"], adt["line"]), sample={"adt": e["adt"], "fields": fields})
-    # per-call construction of resolver: never stored in state (its type must not occur in any state ADT field)
-    for e in tab["per_call_types"]:
-        for a in F.adts.values():
-            if a["crate"] != WASM and not e.get("core"):
+            if raw["kind"].startswith("Const") and "thread_local" in raw.get("macros", []) and raw.get("ty"):
+                roots[(cr, raw["id"].split("::{")[0])] = raw["ty"]
+
+    state_adts = {}
+
+    def shape(cr, ty):
+        out = ty
+        for gid, a in F.adts.items():
+            if a["crate"] != cr:
                 continue
-            for v in a["variants"]:
-                for fl in v["fields"]:
-                    if a["id"] in [x["adt"] for x in tab["state_adts"]] and e["type"] in fl["ty"]:
-                        rep.ob("C14.3", "percall/%s" % e["type"], False, "%s is stored in process-lifetime state %s.%s" % (e["type"], a["id"], fl["name"]))
-    rep.ob("C14.3", "rust-inventory", True, sample={"rust_state": sorted("%s::%s" % x for x in user_statics)})
+            local = a["id"]
+            if re.search(r"(?<![\w:])%s(?![\w:])" % re.escape(local), out):
+                state_adts[gid] = a
+                fields = sorted(fl["ty"] for v in a["variants"] for fl in v["fields"])
+                out = re.sub(r"(?<![\w:])%s(?![\w:])" % re.escape(local), "{" + "; ".join(fields) + "}", out)
+        return out
+    got = collections.Counter((cr, shape(cr, ty)) for (cr, _), ty in roots.items())
+    expected = collections.Counter((e["crate"], e["shape"]) for e in tab["rust_state"])
+    for (cr, sh), n in sorted(got.items()):
+        names = sorted(nm for (c2, nm), ty in roots.items() if c2 == cr and shape(cr, ty) == sh)
+        rep.ob("C14.3", "static/%s/%s" % (cr, sh), n <= expected.get((cr, sh), 0),
+               "process-lifetime state %s in %s (holding %s) is not in the reviewed inventory (tables/c14_state_inventory.json): state that survives a rebuild must be shown to depend on current file contents only; a new field of the cache struct is new cross-rebuild state as well" % (
+                   names, cr, sh), sample={"crate": cr, "held_shape": sh, "items": names})
+    for (cr, sh) in sorted(set(expected) - set(got)):
+        rep.notes.append("inventory entry %s / %s no longer exists" % (cr, sh))
+    rep.floor("C14.3", "process-lifetime roots in beff_wasm", sum(n for (cr, _), n in got.items() if cr == WASM), 2)
+    # resolvers are per call: no type implementing the host resolver trait may be held in that state
+    resolver_types = {i["self"].split("<")[0] for i in F.impls if (i.get("trait") or "").endswith("FsModuleResolver")}
+    rep.floor("C14.3", "host resolver implementations", len(resolver_types), 1)
+    for gid, a in sorted(state_adts.items()):
+        for v in a["variants"]:
+            for fl in v["fields"]:
+                bad = [t for t in resolver_types if re.search(r"(?<![\w])%s(?![\w])" % re.escape(t.rsplit("::", 1)[-1]), fl["ty"])]
+                rep.ob("C14.3", "percall/%s.%s" % (gid, fl["ty"]), not bad,
+                       "%s (an implementation of the host resolver, with its answers cached inside) is stored in process-lifetime state %s: resolutions would survive rebuilds" % (bad, gid),
+                       "%s:%s" % (a["file"], a["line"]))
+    rep.ob("C14.3", "rust-inventory", True, sample={"rust_state": sorted("%s::%s : %s" % (k[0], k[1], v) for k, v in roots.items())})
     # JS side
     for rel in tab["js_files"]:
         mod = cx.ts(rel)
         bindings = js_module_state(mod)
-        exp = set(tab["js_bindings"].get(rel, []))
+        # identified by shape (how it is declared, what it is initialised with, whether it is filled from the host),
+        # not by name
+        fk = js_file_keyed_caches(mod)
+        got_js = collections.Counter()
+        names_of = collections.defaultdict(list)
         for name, why in sorted(bindings.items()):
-            rep.ob("C14.3", "js/%s/%s" % (rel.rsplit("/", 1)[-1], name), name in exp,
-                   "module-level mutable binding `%s` (%s) in %s is not in the reviewed inventory" % (name, why, rel), rel,
-                   sample={"file": rel, "binding": name, "why": why})
+            init = mod.vars[name][1]
+            sig = "%s | init %s | %s" % (why, tsast.s(init) if init is not None else "-", "filled from fs / module resolution" if name in fk else "not host-derived")
+            got_js[sig] += 1
+            names_of[sig].append(name)
+        exp = collections.Counter(tab["js_state"].get(rel, []))
+        for sig, k in sorted(got_js.items()):
+            rep.ob("C14.3", "js/%s/%s" % (rel.rsplit("/", 1)[-1], sig), k <= exp.get(sig, 0),
+                   "module-level mutable binding(s) %s (%s) in %s: %d such binding(s), the reviewed inventory has %d" % (names_of[sig], sig, rel, k, exp.get(sig, 0)), rel,
+                   sample={"file": rel, "bindings": names_of[sig], "shape": sig})
     # ---------------------------------------------------------------- C14.4
     rep.rule("C14.4", "no host query is reachable from the function whose result is cached by (name, content)")
     pab = [f for f in F.fns.values() if f.name == "parse_and_bind" and f.crate != WASM]
@@ -358,7 +383,27 @@ def run(cx, rep):
         from rules import ts_common
         ps = ts_common.fn_params(fn)
         upd = [n for n in tsast.walk(fn) if n["type"] == "CallExpression" and tsast.s(n["callee"]).replace("?", "").endswith(".updateFileContent")]
-        ex = [n for n in tsast.walk(fn) if n["type"] == "CallExpression" and tsast.s(n["callee"]) == "exec"]
+        # the rebuild, by role: a call of a local function value (a const arrow / function declared in the module or
+        # in an enclosing function, or a parameter of an enclosing function) that hands the same compiler object on
+        bobj = tsast.s(tsast.unparen(upd[0]["callee"])["object"] if upd and tsast.unparen(upd[0]["callee"]).get("type") == "MemberExpression" else upd[0]["callee"]["base"]["object"]).rstrip("?") if upd else None
+        local_fns = {}
+        enclosing_params = set()
+        for n in tsast.walk(cmd.module):
+            if n["type"] == "VariableDeclarator" and n["id"].get("type") == "Identifier" and n.get("init") is not None and n["init"].get("type") in ("ArrowFunctionExpression", "FunctionExpression"):
+                local_fns[n["id"]["value"]] = n["init"]
+            if n["type"] in ("ArrowFunctionExpression", "FunctionExpression", "FunctionDeclaration") and n is not fn and any(x is fn for x in tsast.walk(n)):
+                enclosing_params |= {p_ for p_ in ts_common.fn_params(n) if p_}
+        for fname_, d_ in cmd.functions.items():
+            local_fns[fname_] = d_
+
+        def hands_compiler_on(f_):
+            return any(c_["type"] == "CallExpression" and any(tsast.s(a_["expression"]).rstrip("?") == bobj for a_ in c_["arguments"]) for c_ in tsast.walk(f_))
+        ex = []
+        for n in tsast.walk(fn):
+            if n["type"] == "CallExpression" and tsast.unparen(n["callee"]).get("type") == "Identifier":
+                cn_ = tsast.unparen(n["callee"])["value"]
+                if cn_ in enclosing_params or (cn_ in local_fns and bobj and hands_compiler_on(local_fns[cn_])):
+                    ex.append(n)
         al = ts_common.local_aliases(fn)
         ok = len(upd) == 1 and len(ex) == 1 and upd[0]["span"]["start"] < ex[0]["span"]["start"]
         if ok:
@@ -374,15 +419,112 @@ def run(cx, rep):
         rep.ob("C14.6", "change-handler/unconditional", not early and not cond,
                "the change handler can skip updateFileContent (%s): the session cache then keeps the module parsed from the old text and later rebuilds differ from a fresh process" % (
                    "early exit before the update" if early else "update is conditional"), cmd.loc((early or cond or [fn])[0]))
+    # ---------------------------------------------------------------- C14.7
+    rep.rule("C14.7", "cache-only module lookups are used for certainly-loaded files only")
+    cache_only_lookup_rule(cx, rep, "C14.7")
     # ---------------------------------------------------------------- C14.5
     rep.rule("C14.5", "JS caches keyed by file are invalidated by Bundler.updateFileContent")
     upd = bc.method_fn("updateFileContent")
     upd_txt = tsast.s(upd["body"]["stmts"][0].get("argument") or upd["body"]["stmts"][0].get("expression")) if upd["body"]["stmts"] else ""
     touched = {n["value"] for n in tsast.walk(upd) if n["type"] == "Identifier"}
-    for name in sorted(js_file_keyed_caches(bundler_ts)):
-        rep.ob("C14.5", "js-cache/%s" % name, name in touched,
+    fkc = js_file_keyed_caches(bundler_ts)
+    for name in sorted(fkc):
+        # keyed by what the cache is filled from (its name is the maintainers' business)
+        rep.ob("C14.5", "js-cache/filled-by:%s" % "+".join(sorted(fkc[name])), name in touched,
                "module-level cache `%s` in bundler.ts is filled from the file system and never invalidated when a file is updated (updateFileContent does not touch it)" % name,
                bundler_ts.loc(bundler_ts.vars[name][2]))
+
+
+def cache_only_lookup_rule(cx, rep, rid):
+    """FileManager has two accessors: get_or_fetch_file loads a module on demand, get_existing_file answers only from
+    what the session has already loaded - its answer depends on which files earlier builds / earlier lookups happened
+    to touch.  It is therefore only sound for a file that is certainly loaded: the file an Anchor points into (anchors
+    are created while that file is being processed) or the visitor's current file.  A name taken from an import /
+    re-export table must go through get_or_fetch_file, otherwise a rebuild (or a build with another lookup order)
+    resolves differently from a fresh process."""
+    F = cx.rs
+    from mirflow import op_place
+
+    def kinds(f, flow, operand, depth, seen):
+        pl = op_place(operand)
+        if pl is None:
+            return {"other:constant"}
+        out = set()
+        projs = [p for p in pl["p"] if p != "*"]
+        for p in projs:
+            if re.search(r"^f:(\w+::)*Anchor::f$", p):
+                return {"anchor-file"}
+            if p.endswith("::current_file"):
+                return {"current-file"}
+            if re.search(r"^f:(\w+::)*(ImportReference|SymbolExport|SymbolsExportsModule|UnresolvedExport)\b", p):
+                return {"table:%s" % p[2:]}
+        l = pl["l"]
+        if (l, tuple(projs)) in seen:
+            return out
+        seen = seen | {(l, tuple(projs))}
+        argc = f.mir["arg_count"]
+        defs = flow.defs_of(l)
+        if 1 <= l <= argc and not defs:
+            ty = f.mir["locals"][l].get("ty") or ""
+            if "Anchor" in ty and not projs:
+                return {"anchor-file"}
+            if depth >= 2:
+                return {"other:parameter of %s" % f.name}
+            callers = [(g, c) for g in F.fns.values() if g.mir for c in g.calls if f.id in (c.local_target or [])]
+            if not callers:
+                return {"other:parameter of %s (no caller found)" % f.name}
+            for g, c in callers:
+                if l - 1 < len(c.term["args"]):
+                    out |= kinds(g, FnFlow(g), c.term["args"][l - 1], depth + 1, set())
+            return out
+        for bi, d in defs:
+            rv = d.get("rv")
+            if rv is None:
+                callee = (d.get("callee") or {}).get("path") or "?"
+                m = callee.rsplit("::", 1)[-1]
+                if m in ("clone", "deref", "borrow", "as_ref", "to_owned") and d["args"]:
+                    out |= kinds(f, flow, d["args"][0], depth, seen)
+                elif m in ("next", "next_back", "find", "get", "iter", "into_iter", "pop", "first", "last", "resolve_import"):
+                    out.add("table:element or answer obtained through %s" % callee)
+                else:
+                    out.add("other:result of %s" % callee)
+            elif rv["k"] in ("Use", "Cast"):
+                out |= kinds(f, flow, rv["op"], depth, seen)
+            elif rv["k"] in ("Ref", "CopyForDeref", "RawPtr"):
+                out |= kinds(f, flow, {"k": "copy", "place": rv["place"]}, depth, seen)
+            else:
+                out.add("other:%s" % rv["k"])
+        return out
+    n = 0
+    for g in sorted(F.fns):
+        f = F.fns[g]
+        if not f.mir or f.crate == WASM or "test_tools" in g or "::tests::" in g:
+            continue
+        for c in f.calls:
+            if not (c.path or "").endswith("FileManager::get_existing_file") or len(c.term["args"]) < 2:
+                continue
+            n += 1
+            ks = kinds(f, FnFlow(f), c.term["args"][1], 0, set())
+            # decided part: the key is never an element of a collection / a field of an import or export record / a
+            # resolver answer (files that nothing guarantees to be loaded); keys handed down through parameters are the
+            # file being processed and are not decided
+            bad = sorted(k for k in ks if k.startswith("table:"))
+            rep.ob(rid, "existing-only/%s" % strip_g(f.id), not bad,
+                   "%s asks the file manager for an ALREADY LOADED module with a key that is not the file of an Anchor / the current file (%s): whether the answer exists depends on what the session loaded before, so the same sources resolve differently in a fresh process" % (
+                       f.id, bad or "unknown"), "%s:%s" % (c.file, c.line), sample={"fn": f.id, "key_is": sorted(ks)})
+    rep.floor(rid, "cache-only lookups (get_existing_file)", n, 3)
+
+
+def strip_g(s_):
+    out, d = [], 0
+    for ch in s_:
+        if ch == "<":
+            d += 1
+        elif ch == ">":
+            d -= 1
+        elif d == 0:
+            out.append(ch)
+    return "".join(out).replace("::::", "::")
 
 
 def key_from_param(F, f, org, param_no, depth=0):
@@ -449,7 +591,7 @@ def js_written(mod, name):
 
 def js_file_keyed_caches(mod):
     """const containers written at run time whose written value derives from fs reads / module resolution"""
-    out = set()
+    out = {}
     for name, (kind, init, decl) in mod.vars.items():
         if kind != "const" or init is None or tsast.unparen(init)["type"] != "ObjectExpression":
             continue
@@ -460,14 +602,16 @@ def js_file_keyed_caches(mod):
             if i2 is None or i2["type"] not in ("ArrowFunctionExpression", "FunctionExpression"):
                 continue
             writes = False
-            reads_host = False
+            reads_host = set()
             for n in tsast.walk(i2):
                 if n["type"] == "AssignmentExpression" and tsast.s(n["left"]).startswith(name + "["):
                     writes = True
                 if n["type"] == "CallExpression":
                     cs = tsast.s(n["callee"])
-                    if cs.startswith("fs.") or cs.startswith("resolve"):
-                        reads_host = True
+                    if cs.startswith("fs."):
+                        reads_host.add(cs)
+                    elif cs.startswith("resolve"):
+                        reads_host.add("resolve*")
             if writes and reads_host:
-                out.add(name)
+                out.setdefault(name, set()).update(reads_host)
     return out
